@@ -798,15 +798,16 @@ type jRecipient struct {
 //	"unprotected" alg + key-management parameters in the shared unprotected header
 //	"recipient"   alg + key-management parameters in the per-recipient header
 type jMessageSpec struct {
-	Enc        string
-	Zip        bool
-	Plaintext  []byte
-	Recipients []jRecipient
-	Placement  string
-	EncPlace   string // where `enc` goes: "protected" (default) | "unprotected"
-	NoProt     bool   // no protected header at all (then zip is not possible)
-	AAD        []byte // JWE AAD (JSON serializations only); nil = none
-	ProtExtra  map[string]any
+	Enc         string
+	Zip         bool
+	Plaintext   []byte
+	Recipients  []jRecipient
+	Placement   string
+	EncPlace    string // where `enc` goes: "protected" (default) | "unprotected"
+	NoProt      bool   // no protected header at all (then zip is not possible)
+	AAD         []byte // JWE AAD (JSON serializations only); nil = none
+	NonCanon    bool   // spell the protected text and the aad text with non-zero trailing bits (accepted by lenient decoders)
+	ProtExtra   map[string]any
 	UnprotExtra map[string]any
 }
 
@@ -822,6 +823,7 @@ type jMessage struct {
 	IV, CT, Tag []byte
 	AAD         []byte
 	HasAAD      bool
+	B64AAD      string // the aad member as spelled
 	CEK         []byte
 }
 
@@ -922,11 +924,17 @@ func jEncrypt(spec jMessageSpec, rnd func(n int) []byte) (*jMessage, error) {
 	if len(unprot) > 0 {
 		msg.Unprotected = unprot
 	}
-	// step 14: AAD
+	// step 14: AAD (over the texts exactly as they are transmitted)
+	if spec.NonCanon {
+		msg.B64Prot = jNonCanonical(msg.B64Prot)
+	}
 	aad := msg.B64Prot
 	if spec.AAD != nil {
-		msg.AAD, msg.HasAAD = spec.AAD, true
-		aad = aad + "." + jEnc(spec.AAD)
+		msg.AAD, msg.HasAAD, msg.B64AAD = spec.AAD, true, jEnc(spec.AAD)
+		if spec.NonCanon {
+			msg.B64AAD = jNonCanonical(msg.B64AAD)
+		}
+		aad = aad + "." + msg.B64AAD
 	}
 	// step 15: encrypt
 	msg.CT, msg.Tag, err = jEncEncrypt(spec.Enc, cek, msg.IV, []byte(aad), m)
@@ -934,6 +942,17 @@ func jEncrypt(spec jMessageSpec, rnd func(n int) []byte) (*jMessage, error) {
 		return nil, err
 	}
 	return msg, nil
+}
+
+// jNonCanonical sets a non-zero trailing bit in the last character of an unpadded base64url text whose length is not a
+// multiple of 4 (the decoded octets stay the same; Go's decoder accepts it).
+func jNonCanonical(s string) string {
+	const alphabet = "ABCDEFGHIJKLMNOPQRSTUVWXYZabcdefghijklmnopqrstuvwxyz0123456789-_"
+	if len(s)%4 == 0 || len(s) == 0 {
+		return s
+	}
+	i := strings.IndexByte(alphabet, s[len(s)-1])
+	return s[:len(s)-1] + string(alphabet[i|1])
 }
 
 // Compact renders RFC 7516 §7.1 (one recipient, everything protected).
@@ -959,7 +978,7 @@ func (m *jMessage) common() map[string]any {
 		o["tag"] = jEnc(m.Tag)
 	}
 	if m.HasAAD {
-		o["aad"] = jEnc(m.AAD)
+		o["aad"] = m.B64AAD
 	}
 	return o
 }
